@@ -369,6 +369,19 @@ func runC03(c *Ctx) {
 			}
 		}
 		c.obI("R03.6", b, "binder-errors-reach-validation-result", !lost, "a binder error always ends up in validation.result (which stops the handler)", "a non-nil binder result can be dropped")
+		// when the composite is taken apart, every member is recorded: a member filtered out (by its type, its code …)
+		// is a binder error that no longer stops the handler
+		isRecStore := func(in ssa.Instruction) bool {
+			st, ok := in.(*ssa.Store)
+			if !ok {
+				return false
+			}
+			_, okF := fieldAddrOf(st.Addr, "rt/middleware.validation", "result")
+			return okF
+		}
+		for _, l := range sliceLoops(vp, nil) {
+			c.obI("R03.6", l.Elem, "every-member-recorded", l.everyIteration(isRecStore) && l.noEarlyExit(), "every member of the binder's composite error is appended to validation.result", "a member of the binder's error list can be skipped")
+		}
 		_, a := callArgs(b.Common())
 		okA := vFieldLoadO("rt/middleware.validation", "request")(a[0]) && vFieldLoadO(matchedRouteT, "Params")(a[1]) && vFieldLoadO("rt/middleware.validation", "bound")(a[3])
 		c.obI("R03.6", b, "binder-inputs", okA, "the binder is fed this request, its route parameters and the per-request result map", "")
@@ -470,7 +483,109 @@ func runC03(c *Ctx) {
 			}
 		}
 	}
-	c.min("R03.7", 12)
+	// a multi-valued parameter keeps one item per occurrence, in order: setSliceFieldValue converts data[i] into
+	// element i of a slice made with len(data) elements and stores that very slice
+	{
+		sf := p.Fn("(*rt/middleware.untypedParamBinder).setSliceFieldValue")
+		data := paramOfType(sf, "[]string")
+		loops := sliceLoops(sf, vOrigins(oIsValue(data)))
+		c.obRF("R03.7", sf, "item-loop", len(loops) == 1, "one pass over the occurrences of the parameter", fmt.Sprintf("%d loops", len(loops)))
+		var mk []ssa.CallInstruction
+		for _, ci := range callsIn(sf, "reflect.MakeSlice") {
+			mk = append(mk, ci)
+		}
+		for _, l := range loops {
+			var conv *ssa.Call
+			for _, ci := range callsIn(sf, "(*rt/middleware.untypedParamBinder).setFieldValue") {
+				if call, ok := ci.(*ssa.Call); ok {
+					conv = call
+				}
+			}
+			if conv == nil {
+				c.obRF("R03.7", sf, "item-converted", false, "each occurrence is converted by setFieldValue", "")
+				continue
+			}
+			okEvery := l.everyIteration(isOneOf(conv))
+			c.obI("R03.7", l.Elem, "every-occurrence-is-an-item", okEvery, "every occurrence of a multi-valued parameter — an empty one included — becomes an item of the bound array", "an occurrence can be skipped")
+			// element i receives occurrence i
+			_, a := callArgs(conv.Common())
+			okIdx := false
+			if ix := asCall(a[0]); ix != nil && calleeName(&ix.Call) == "(reflect.Value).Index" {
+				_, ia := callArgs(&ix.Call)
+				okIdx = len(ia) == 1 && ia[0] == l.Elem.Index
+			}
+			okVal := false
+			if ld, isLd := derefLoad(a[2]); isLd {
+				okVal = ld == ssa.Value(l.Elem)
+			}
+			c.obI("R03.7", conv, "item-i-from-occurrence-i", okIdx && okVal, "occurrence i is converted into element i (order and positions are kept)", "")
+		}
+		n := 0
+		for _, ci := range callsIn(sf, "(reflect.Value).Set") {
+			recv, a := callArgs(ci.Common())
+			if ok, _ := allOrigins(recv, oIsValue(paramOfType(sf, "reflect.Value"))); !ok {
+				continue
+			}
+			n++
+			ok, bad := allOrigins(a[0], oCall(-1, "reflect.MakeSlice"), oCall(-1, "reflect.Zero"), oCall(-1, "reflect.ValueOf"))
+			c.obI("R03.7", ci, "stores-the-whole-slice", ok, "the target receives the slice of len(data) items as made (or the default), not a part of it", "origin "+describeOrigin(bad))
+		}
+		c.obRF("R03.7", sf, "sets-target", n >= 1, "setSliceFieldValue stores into its target", "")
+		for _, ci := range mk {
+			_, a := callArgs(ci.Common())
+			okLen := false
+			if len(a) == 3 {
+				isLen := func(v ssa.Value) bool {
+					ok, _ := allOrigins(v, oCallWhere(-1, "builtin len", func(lc *ssa.Call) bool {
+						okk, _ := allOrigins(lc.Call.Args[0], oIsValue(data))
+						return okk
+					}))
+					return ok
+				}
+				okLen = isLen(a[1])
+			}
+			c.obI("R03.7", ci, "slice-sized-by-occurrences", okLen, "the bound array has as many items as the parameter has occurrences", "")
+		}
+	}
+	// readValue hands on what the request carries: the occurrences found under the key, untouched (only the
+	// separated collection formats are split, by readFormattedSliceFieldValue) — each occurrence of a multi-valued
+	// parameter is one item, whatever characters it contains
+	{
+		rv := p.Fn("(*rt/middleware.untypedParamBinder).readValue")
+		for _, r := range realReturns(rv) {
+			if len(r.Results) < 1 {
+				continue
+			}
+			ok, bad := allOrigins(r.Results[0], oNil(), func(o Origin) bool {
+				call := asCall(o.V)
+				return call != nil && call.Call.IsInvoke() && call.Call.Method.Name() == "GetOK"
+			}, oCall(0, "(*rt/middleware.untypedParamBinder).readFormattedSliceFieldValue"))
+			c.obI("R03.7", r, "occurrences-handed-on-verbatim", ok, "the values readValue returns are the occurrences GetOK found (or the split of the last one for a separated collection format): nothing else splits, trims or rewrites them", "origin "+describeOrigin(bad))
+		}
+	}
+	// a required parameter that is absent (or empty without allowEmptyValue) is refused before anything is converted:
+	// in the two setters no conversion step (the text-unmarshaler shortcut, the reflective setters, the per-item
+	// conversion) can be followed by the "required" refusal — the refusal is decided first
+	for _, fn := range []string{"(*rt/middleware.untypedParamBinder).setFieldValue", "(*rt/middleware.untypedParamBinder).setSliceFieldValue"} {
+		sf := p.Fn(fn)
+		reqs := callsIn(sf, "github.com/go-openapi/errors.Required")
+		c.obRF("R03.7", sf, "refuses-missing-required", len(reqs) >= 1, "the setter refuses a missing required parameter", "no errors.Required call")
+		for _, rq := range reqs {
+			for _, ci := range allCalls(sf) {
+				if ci.Parent() != sf {
+					continue
+				}
+				n := calleeName(ci.Common())
+				conv := n == "(*rt/middleware.untypedParamBinder).tryUnmarshaler" || n == "(*rt/middleware.untypedParamBinder).setFieldValue" ||
+					(strings.HasPrefix(n, "(reflect.Value).Set") && n != "(reflect.Value).Set")
+				if !conv {
+					continue
+				}
+				c.obI("R03.7", ci, "required-decided-before-conversion", !pathExists(sf, ci, rq, nil, nil), "no conversion step precedes the test for a missing required value (a type that unmarshals itself from text cannot turn an absent required parameter into its zero value)", "the 'required' refusal is reachable only after "+n+" has run")
+			}
+		}
+	}
+	c.min("R03.7", 18)
 
 	// R03.8 bounds
 	var bf []*ssa.Function
@@ -669,17 +784,17 @@ func ruleR03_4(c *Ctx) {
 				return derived(r)
 			}, 22, true) // reflect.Ptr
 			if !onDefault && guardedBy(ci, nil, isPtrKind) {
-				c.ob("R03.4", short(fn.String()), op+"(default)", c.P.InstrPos(ci), true,
+				c.ob("R03.4", obFnName(fn), op+"(default)", c.P.InstrPos(ci), true,
 					"a spec default is stored into the binding target only after conversion to the target's type [kind table: under defVal.Kind() == Ptr the value can only be reflect.Zero(target.Type()) — a JSON-decoded default is never a pointer — so the types are identical]", "")
 				continue
 			}
 			if onDefault {
 				reason, safe := c03KindSafe[name]
-				c.ob("R03.4", short(fn.String()), "default."+op, c.P.InstrPos(ci), safe,
+				c.ob("R03.4", obFnName(fn), "default."+op, c.P.InstrPos(ci), safe,
 					"reflect operations that assert a kind on a value derived from the spec's default are kind-safe for every declaration the language allows [kind table: "+reason+"]",
 					"reflect.Value."+op+" on the spec default asserts a kind the JSON-decoded default does not have for some declarations (e.g. a string default for format byte): reflect panics")
 			} else {
-				c.ob("R03.4", short(fn.String()), op+"(default)", c.P.InstrPos(ci), false,
+				c.ob("R03.4", obFnName(fn), op+"(default)", c.P.InstrPos(ci), false,
 					"a spec default is stored into the binding target only after conversion to the target's type",
 					"reflect.Value."+op+" stores the JSON-decoded default (string, float64, []interface{}) into a target of the declared Go type without conversion: reflect panics when the types differ (array defaults, strfmt formats, byte)")
 			}
